@@ -34,6 +34,11 @@ type Profile struct {
 	NoArrPattern   bool // no array destructuring patterns in match
 	NoRebindInputs bool // never `$`-redeclare input / query / headers
 	NoPatternLeak  bool // never refer to a match binding after its match expression
+	TotalOnly      bool // no operation that can fail at run time on well-typed operands (/ % index substring charAt parseInt)
+	AnchoredConds  bool // every if/while condition depends on a free variable (never a compile-time constant)
+	NoLoopDecl     bool // no `$` declaration directly in a while body
+	OptShapes      bool // bias towards shapes the optimizer rewrites (x*0, x+0, copies, constant branches)
+	FreeVars       bool // declare fv0:int fv1:bool fv2:str as untyped-at-runtime inputs (C03/C15)
 	Exclude    map[string]bool
 }
 
@@ -78,6 +83,7 @@ type G struct {
 	loop     int // loop nesting
 	nest     int
 	inFunc   string
+	noDeclAt int // block nesting level at which `$` declarations are not generated (0: nowhere)
 	fnLocalPrefix string
 }
 
@@ -330,10 +336,93 @@ func (g *G) numOperand(d int, allowFloat bool) (*Node, bool) {
 	return g.expr("int", d), false
 }
 
+// safeOperand: a literal or a non-input local of exactly this type (cannot fail, cannot be of another kind at run time)
+func (g *G) safeOperand(ty string) *Node {
+	var vs []string
+	for _, n := range g.visible(ty, false) {
+		if !strings.HasPrefix(n, "fv") && !strings.HasPrefix(n, "q") && !strings.HasPrefix(n, "pp") && n != "input" {
+			vs = append(vs, n)
+		}
+	}
+	if len(vs) > 0 && g.pct("safevar", 70) {
+		return Var(g.pick("sv", vs))
+	}
+	return g.lit(ty)
+}
+
+func (g *G) optIntShape(d int) *Node {
+	x := g.expr("int", d-1)
+	if g.p.Exclude["c03.algebraic-identities-assume-numeric-total-operand"] {
+		x = g.safeOperand("int")
+		g.diverted["c03.algebraic-identities-assume-numeric-total-operand"]++
+	}
+	switch g.n("osh", 12) {
+	case 0:
+		return Bin("*", x, Int(0))
+	case 1:
+		return Bin("*", Int(0), x)
+	case 2:
+		return Bin("+", x, Int(0))
+	case 3:
+		return Bin("+", Int(0), x)
+	case 4:
+		return Bin("*", x, Int(1))
+	case 5:
+		return Bin("*", x, Int(2))
+	case 6:
+		return Bin("*", Int(2), x)
+	case 7:
+		return Bin("-", x, x.Clone())
+	case 8:
+		return Bin("/", x, Int(1))
+	case 9:
+		return Bin("-", x, Int(0))
+	case 10:
+		return Bin("+", Bin("*", Int(3), Int(4)), x)
+	}
+	if !g.p.Floats {
+		return Bin("+", x, Int(0))
+	}
+	return Bin("*", x, Float(0.0))
+}
+
+func (g *G) optBoolShape(d int) *Node {
+	b := g.expr("bool", d-1)
+	if g.p.Exclude["c03.algebraic-identities-assume-numeric-total-operand"] {
+		b = g.safeOperand("bool")
+		g.diverted["c03.algebraic-identities-assume-numeric-total-operand"]++
+	}
+	switch g.n("bsh", 8) {
+	case 0:
+		return Bin("&&", Bool(true), b)
+	case 1:
+		return Bin("&&", b, Bool(true))
+	case 2:
+		return Bin("||", Bool(false), b)
+	case 3:
+		return Bin("||", b, Bool(false))
+	case 4:
+		return Bin("&&", b, Bool(false))
+	case 5:
+		return Bin("||", b, Bool(true))
+	case 6:
+		x := g.expr("int", d-1)
+		return Bin(g.pick("xx", []string{"==", "!=", "<=", "<", ">=", ">"}), x, x.Clone())
+	}
+	return Bin("==", Bin("+", Int(1), Int(2)), Int(3))
+}
+
 func (g *G) intExpr(d int) *Node {
+	if g.p.OptShapes && g.pct("optshape", 30) {
+		g.event("optimizer-shape")
+		return g.optIntShape(d)
+	}
 	switch g.n("ik", 12) {
 	case 0, 1, 2, 3, 4:
 		op := g.pick("iop", []string{"+", "-", "*", "+", "-", "*", "/", "%"})
+		if g.p.TotalOnly && (op == "/" || op == "%") {
+			op = "+"
+		}
 		l := g.expr("int", d-1)
 		r := g.expr("int", d-1)
 		if (op == "/" || op == "%") && !g.pct("divzero", 8) {
@@ -373,7 +462,7 @@ func (g *G) intExpr(d int) *Node {
 			}
 		}
 	case 7:
-		if g.p.Arrays {
+		if g.p.Arrays && !g.p.TotalOnly {
 			if vs := g.visible("[int]", false); len(vs) > 0 {
 				return N("index", Var(g.pick("av", vs)), Int(int64(g.n("idx", 4))))
 			}
@@ -394,6 +483,9 @@ func (g *G) pick2(label string, xs ...*Node) *Node { return xs[g.n(label, len(xs
 
 func (g *G) floatExpr(d int) *Node {
 	op := g.pick("fop", []string{"+", "-", "*", "/", "+", "*"})
+	if g.p.TotalOnly && op == "/" {
+		op = "*"
+	}
 	l, lf := g.numOperand(d-1, true)
 	r, rf := g.numOperand(d-1, true)
 	if !lf && !rf {
@@ -421,9 +513,12 @@ func (g *G) strExpr(d int) *Node {
 			return Call("toString", g.expr(g.pick("tst", []string{"int", "bool", "int", "str"}), d-1))
 		}
 	case 2:
-		return Call("replace", g.expr("str", d-1), g.expr("str", 0), g.expr("str", 0))
+		// non-empty literal pattern and literal replacement: replace(s, "", big) multiplies sizes
+		return Call("replace", g.expr("str", d-1), Str(g.pick("rpat", []string{"a", "b", "l", "x,", " "})), Str(g.pick("rrep", []string{"", "-", "ab", "a"})))
 	case 3:
-		return Call("substring", g.expr("str", d-1), Int(int64(g.n("ss", 3))), Int(int64(g.n("se", 6))))
+		if !g.p.TotalOnly {
+			return Call("substring", g.expr("str", d-1), Int(int64(g.n("ss", 3))), Int(int64(g.n("se", 6))))
+		}
 	case 4:
 		if !g.p.VMOnly {
 			return Call("charAt", g.expr("str", d-1), Int(int64(g.n("ci", 4))))
@@ -445,6 +540,10 @@ func (g *G) strExpr(d int) *Node {
 }
 
 func (g *G) boolExpr(d int) *Node {
+	if g.p.OptShapes && g.pct("optshapeb", 30) {
+		g.event("optimizer-shape")
+		return g.optBoolShape(d)
+	}
 	switch g.n("bk", 10) {
 	case 0, 1, 2:
 		op := g.pick("cmp", []string{"<", "<=", ">", ">=", "==", "!="})
@@ -477,6 +576,9 @@ func (g *G) boolExpr(d int) *Node {
 			return Call(g.pick("sb", []string{"contains", "startsWith", "endsWith"}), g.expr("str", d-1), g.expr("str", 0))
 		}
 	case 8:
+		if g.p.TotalOnly {
+			break
+		}
 		// short-circuit must protect a failing right operand
 		g.event("short-circuit-guarding-error")
 		if g.n("sc", 2) == 0 {
@@ -567,7 +669,7 @@ func (g *G) matchExpr(ty string, d int) *Node {
 			g.pop()
 			g.event("match-guard")
 		}
-		if g.pct("mwild", 80) {
+		if g.p.TotalOnly || g.pct("mwild", 80) {
 			m.C = append(m.C, N("mcase", N("pwild"), none, g.expr(ty, d-1)))
 		} else {
 			g.event("match-non-exhaustive")
@@ -634,6 +736,9 @@ func (g *G) declStmt() *Node {
 			n := g.pick("outer", outer)
 			v := g.lookup(n)
 			g.event("dollar-updates-outer-variable")
+			if g.loop > 0 && (v.ty == "str" || v.ty == "[int]") {
+				return NS("decl", n, g.growSafe(v.ty))
+			}
 			return NS("decl", n, g.expr(v.ty, g.p.MaxDepth-1))
 		}
 	case r < 24 && len(g.dead) > 0:
@@ -665,6 +770,14 @@ func (g *G) declStmt() *Node {
 }
 
 func (g *G) valueFor(ty string) *Node {
+	if g.p.OptShapes && g.pct("optval", 45) {
+		if vs := g.visible(ty, false); len(vs) > 0 && g.pct("copy", 50) {
+			g.event("copy-assignment")
+			return Var(g.pick("cp", vs))
+		}
+		g.event("literal-assignment")
+		return g.lit(ty)
+	}
 	if ty == "obj" || ty == "[str]" {
 		return g.lit(ty)
 	}
@@ -726,6 +839,24 @@ func (g *G) retType() string {
 
 func (g *G) stmt() *Node {
 	canNest := g.nest < g.p.MaxNest
+	if g.noDeclAt != 0 && g.nest == g.noDeclAt {
+		// directly inside a while body: no declaration (and no nested loop, which needs one)
+		if vs := g.visible("", true); len(vs) > 0 && g.pct("nd-re", 50) {
+			n := g.pick("ndrv", vs)
+			v := g.lookup(n)
+			if v.ty != "obj" && v.ty != "[str]" {
+				v.mut = false
+				if v.ty == "str" || v.ty == "[int]" {
+					return NS("reassign", n, g.growSafe(v.ty))
+				}
+				return NS("reassign", n, g.expr(v.ty, g.p.MaxDepth))
+			}
+		}
+		if canNest {
+			return g.ifStmt()
+		}
+		return &Node{K: "guard", S: "nope", I: 400, C: []*Node{g.guardCond()}}
+	}
 	k := g.n("stmt", 100)
 	switch {
 	case k < 30:
@@ -738,6 +869,17 @@ func (g *G) stmt() *Node {
 				return g.declStmt()
 			}
 			v.mut = false
+			if g.loop > 0 && (v.ty == "str" || v.ty == "[int]") {
+				return NS("reassign", n, g.growSafe(v.ty))
+			}
+			if g.p.OptShapes && g.pct("optre", 45) {
+				if g.pct("relit", 50) {
+					return NS("reassign", n, g.lit(v.ty))
+				}
+				if vs := g.visible(v.ty, false); len(vs) > 0 {
+					return NS("reassign", n, Var(g.pick("recp", vs)))
+				}
+			}
 			return NS("reassign", n, g.expr(v.ty, g.p.MaxDepth))
 		}
 		if g.pct("undeclared", g.p.IllTyped) {
@@ -757,7 +899,7 @@ func (g *G) stmt() *Node {
 		return g.mutateStmt()
 	case k < 85 && g.p.Guards && g.inFunc == "":
 		g.event("guard")
-		return &Node{K: "guard", S: g.pick("gm", []string{"nope", "", "bad request"}), I: []int64{400, 403, 404, 422}[g.n("gs", 4)], C: []*Node{g.expr("bool", 2)}}
+		return &Node{K: "guard", S: g.pick("gm", []string{"nope", "", "bad request"}), I: []int64{400, 403, 404, 422}[g.n("gs", 4)], C: []*Node{g.guardCond()}}
 	case k < 90 && g.nest > 1:
 		g.event("early-return")
 		return g.retStmt()
@@ -783,15 +925,62 @@ func (g *G) stmt() *Node {
 	return g.declStmt()
 }
 
+// anchoredCond depends on a free variable, so no amount of folding or
+// propagation makes it a compile-time constant.
+func (g *G) anchoredCond() *Node {
+	switch g.n("anch", 4) {
+	case 0:
+		return Var("fv1")
+	case 1:
+		return Bin(g.pick("aop", []string{"<", ">", "==", "!=", "<=", ">="}), Var("fv0"), g.expr("int", 1))
+	case 2:
+		return Bin("==", Var("fv2"), g.lit("str"))
+	}
+	return Un("!", Var("fv1"))
+}
+
+// growSafe: a value for a string/array variable assigned inside a loop that
+// cannot make sizes grow geometrically (x = x + x doubles per iteration).
+func (g *G) growSafe(ty string) *Node {
+	if ty == "str" {
+		switch g.n("gs", 3) {
+		case 0:
+			return g.lit("str")
+		case 1:
+			return Call("upper", g.lit("str"))
+		}
+		return Bin("+", g.lit("str"), g.lit("str"))
+	}
+	return g.lit(ty)
+}
+
+func (g *G) guardCond() *Node {
+	if g.p.AnchoredConds {
+		return g.anchoredCond()
+	}
+	return g.expr("bool", 2)
+}
+
 func (g *G) ifStmt() *Node {
 	g.event("if")
-	n := N("if", g.expr("bool", g.p.MaxDepth-1), g.block(g.p.MaxStmts-1))
+	cond := g.expr("bool", g.p.MaxDepth-1)
+	if g.p.AnchoredConds {
+		cond = g.anchoredCond()
+	} else if g.p.OptShapes && g.pct("constcond", 20) {
+		cond = g.pick2("cc", Bool(true), Bool(false), Bin("<", Int(1), Int(2)), Bin("==", Int(1), Int(2)))
+		g.event("constant-condition")
+	}
+	n := N("if", cond, g.block(g.p.MaxStmts-1))
 	switch g.n("else", 4) {
 	case 0:
 	case 1, 2:
 		n.C = append(n.C, g.block(g.p.MaxStmts-1))
 	case 3:
-		inner := N("if", g.expr("bool", 2), g.block(2))
+		ic := g.expr("bool", 2)
+		if g.p.AnchoredConds {
+			ic = g.anchoredCond()
+		}
+		inner := N("if", ic, g.block(2))
 		if g.n("else2", 2) == 0 {
 			inner.C = append(inner.C, g.block(2))
 		}
@@ -811,7 +1000,12 @@ func (g *G) whileStmt() *Node {
 	g.declare(ctr, &vinfo{ty: "int", ro: true})
 	limit := int64(g.n("wl", 6))
 	g.loop++
+	saveNoDecl := g.noDeclAt
+	if g.p.NoLoopDecl {
+		g.noDeclAt = g.nest + 1
+	}
 	body := g.block(g.p.MaxStmts - 1)
+	g.noDeclAt = saveNoDecl
 	g.loop--
 	body.C = append([]*Node{NS("reassign", ctr, Bin("+", Var(ctr), Int(1)))}, body.C...)
 	cond := Bin("<", Var(ctr), Int(limit))
@@ -1049,6 +1243,13 @@ func (g *G) genRoute(idx int) (Route, []Request) {
 			hasBody = true
 			r.Method = "POST"
 			g.declare("input", &vinfo{ty: "obj", ro: true, fields: map[string]string{"s": "str", "b": "bool", "f": "float"}})
+		}
+	}
+	if g.p.FreeVars {
+		for i, ty := range []string{"int", "bool", "str"} {
+			name := fmt.Sprintf("fv%d", i)
+			r.Query = append(r.Query, Param{Name: name, Type: ty})
+			g.declare(name, &vinfo{ty: ty, ro: true})
 		}
 	}
 	body := Block()
